@@ -607,6 +607,30 @@ func TestVerif_C16(t *testing.T) {
 		}
 	}
 	if mine() {
+		// optional parameters filling the one-byte length field up to its last values (253, 254, 255 bytes): the 4-byte-ASN
+		// and IPv4 capabilities followed by a private capability padded to size, in one option and in one option each
+		for _, total := range []int{252, 253, 254, 255} {
+			for _, split := range []bool{false, true} {
+				fixed := [][]byte{caps[0].b, caps[4].b}
+				over := 2 // one option header
+				if split {
+					over = 6 // three option headers
+				}
+				fill := total - over - len(fixed[0]) - len(fixed[1]) - 2
+				pad := append([]byte{239, byte(fill)}, bytes.Repeat([]byte{0xab}, fill)...)
+				opts := packOptions(append(fixed, pad), split, 2)
+				if len(opts) != total {
+					t.Fatalf("harness: %d bytes of options instead of %d", len(opts), total)
+				}
+				body := openBody(4, 23456, 90, len(opts), opts)
+				msg := append(hdr(true, 19+len(body), 1), body...)
+				for _, tr := range trailers[:2] {
+					feed(fmt.Sprintf("caps=as4=70000,mp-v4,private-239 padded to %d bytes of optional parameters split=%v", total, split), msg, tr)
+				}
+			}
+		}
+	}
+	if mine() {
 		// header / body variants on representative capability sets
 		reps := [][]int{nil, {0}, {1}, {4, 5, 0}, {8}, {9, 4}, {2}, {11}}
 		for _, seq := range reps {
